@@ -1,11 +1,13 @@
 import Juniper.Driver.Basic
 import Juniper.Driver.C04
-/-! `driver <model>`: runs one executable model behind the line protocol. Core-only (no Mathlib). -/
+/-! `driver <model>`: runs one executable model behind the line protocol. Core-only (no Mathlib).
+Registration: one `import` line above and one `[("name", handler)],` line below per model
+(this file is merged with git's union driver, so keep one entry per line). -/
 open Juniper.Driver
 
-def handlers : List (String × Handler) := [
-  ("deque", Juniper.Driver.C04.handler)
-]
+def handlers : List (String × Handler) := List.flatten [
+  [("deque", Juniper.Driver.C04.handler)],
+  []]
 
 def main (args : List String) : IO UInt32 := do
   match args with
